@@ -31,6 +31,11 @@ THEOREMS = [
     "C09.reverseOrderOk_iff",
     "C09.populate_order",
     "C09.reverse_shape",
+    "C09.roundTrip_schemas",
+    "C09.reverse_fk_schemas",
+    "C09.reverse_dropFk_schemas",
+    "C09.reverse_dropIndex_kw",
+    "C09.reverse_reverse_createIndex_kw",
     "C09.involutive_flags_counterexample",
     "C09.involutive_index_counterexample",
     "C09.involutive_partial",
